@@ -38,7 +38,7 @@ pub const CORPUS: &[&str] = &[
     "2K4k/8/8/8/B1B5/1B1B4/B1B5/1B1B4 w - - 0 1",
 ];
 
-pub const SOURCES: [&str; 19] = [
+pub const SOURCES: [&str; 20] = [
     "sparse",
     "dense",
     "playout",
@@ -58,6 +58,7 @@ pub const SOURCES: [&str; 19] = [
     "no_moves_search",
     "crowded_area",
     "longest_fen",
+    "pawn_stacks",
 ];
 
 /// Positions with (near-)maximal numbers of semilegal moves found by earlier maximisation runs.
@@ -439,9 +440,15 @@ fn src_pin_check_family(cur: &mut Cursor, p: &mut RefPos) {
     let them = Col::B;
     let k = cur.below(64) as Sq;
     p.b[k as usize] = Some((us, Pc::K));
-    let lines = 1 + cur.below(3);
-    for _ in 0..lines {
-        let d = cur.pick(&[(1i8, 0i8), (-1, 0), (0, 1), (0, -1), (1, 1), (1, -1), (-1, 1), (-1, -1)]);
+    // one to three lines, or (one case in five) up to all eight directions at once
+    const DIRS: [(i8, i8); 8] = [(1, 0), (-1, 0), (0, 1), (0, -1), (1, 1), (1, -1), (-1, 1), (-1, -1)];
+    let many = cur.chance(50);
+    let lines = if many { 8 } else { 1 + cur.below(3) };
+    for li in 0..lines {
+        let d = if many { DIRS[li] } else { cur.pick(&DIRS) };
+        if many && !cur.chance(215) {
+            continue;
+        }
         let mut ray: Vec<Sq> = Vec::new();
         let (mut cf, mut cr) = (file_of(k) + d.0, rank_of(k) + d.1);
         while let Some(s) = mk_sq(cf, cr) {
@@ -693,6 +700,48 @@ fn src_longest_fen(cur: &mut Cursor, p: &mut RefPos) {
         }
     }
     p.castle = [true; 4];
+}
+
+/// One to four pawns of the mover stacked on one file with enemy men diagonally in front of them on a neighbouring file
+/// (sometimes on both): several pawn captures between the same pair of files, which is what the abbreviated capture
+/// notation ("ed") has to tell apart; captures onto the last rank included.
+fn src_pawn_stacks(cur: &mut Cursor, p: &mut RefPos) {
+    place_kings(cur, p);
+    let stacks = 1 + cur.below(2);
+    for _ in 0..stacks {
+        let fa = cur.below(8) as i8;
+        let k = 1 + cur.below(4);
+        let both = cur.chance(60);
+        for _ in 0..k {
+            let r = 1 + cur.below(6) as i8;
+            let s = mk_sq(fa, r).unwrap();
+            if p.b[s as usize].is_some() {
+                continue;
+            }
+            p.b[s as usize] = Some((Col::W, Pc::P));
+            for df in [-1i8, 1] {
+                if !(both || (df == 1) == (fa < 4)) || !cur.chance(215) {
+                    continue;
+                }
+                if let Some(t) = mk_sq(fa + df, r + 1) {
+                    if p.b[t as usize].is_none() {
+                        let mut pc = cur.pick(&[Pc::P, Pc::N, Pc::B, Pc::R, Pc::Q, Pc::P]);
+                        if pc == Pc::P && !pawn_ok(t) {
+                            pc = Pc::N;
+                        }
+                        p.b[t as usize] = Some((Col::B, pc));
+                    }
+                }
+            }
+        }
+    }
+    let n = cur.below(4);
+    for _ in 0..n {
+        let col = if cur.bool() { Col::W } else { Col::B };
+        let pc = cur.pick(&WEIGHTED);
+        put_random(cur, p, (col, pc));
+    }
+    p.side = Col::W;
 }
 
 fn src_corpus_mut(cur: &mut Cursor, p: &mut RefPos) {
@@ -1283,6 +1332,10 @@ pub fn gen_position_from(cur: &mut Cursor, sel: usize) -> (RefPos, &'static str)
             own_side = true;
         }
         17 => src_crowded_area(cur, &mut p),
+        19 => {
+            src_pawn_stacks(cur, &mut p);
+            own_side = true;
+        }
         18 => {
             src_longest_fen(cur, &mut p);
             p.side = if cur.bool() { Col::B } else { Col::W };
@@ -1323,7 +1376,8 @@ pub fn gen_position_from(cur: &mut Cursor, sel: usize) -> (RefPos, &'static str)
 }
 
 /// A near-identical "twin" of a position, chosen by a selector taken from the genome: one man retyped, recoloured,
-/// removed, added or moved one step, a counter changed, or the side flipped. Three selectors out of four give none.
+/// removed, added or moved one step, a counter changed, the side flipped, or one enemy man retyped so that exactly the
+/// answer to "is the mover in check" changes. Three selectors out of four give none.
 /// The twin need not be valid. It is handed to the library just before the position itself (DESIGN 5.6), so that any
 /// state the library keeps between calls - caches, memoised verdicts - is as misleading as it can be.
 pub fn twin_of(p: &RefPos, sel: u32) -> Option<RefPos> {
@@ -1334,8 +1388,34 @@ pub fn twin_of(p: &RefPos, sel: u32) -> Option<RefPos> {
     let mut cur = Cursor::new(&bytes);
     let mut t = p.clone();
     let men: Vec<Sq> = (0..64u8).filter(|&s| matches!(p.b[s as usize], Some((_, pc)) if pc != Pc::K)).collect();
-    let kind = cur.below(9);
+    let kind = cur.below(11);
     match kind {
+        9 | 10 => {
+            // retype one man of the side not to move so that exactly the answer to "is the mover in check" changes
+            let was = p.in_check(p.side);
+            let mut cands: Vec<(Sq, Pc)> = Vec::new();
+            for &s in &men {
+                let (c, old) = p.b[s as usize].unwrap();
+                if c == p.side {
+                    continue;
+                }
+                for x in [Pc::P, Pc::N, Pc::B, Pc::R, Pc::Q] {
+                    if x == old || (x == Pc::P && !pawn_ok(s)) {
+                        continue;
+                    }
+                    t.b[s as usize] = Some((c, x));
+                    if t.in_check(p.side) != was {
+                        cands.push((s, x));
+                    }
+                    t.b[s as usize] = Some((c, old));
+                }
+            }
+            if cands.is_empty() {
+                return None;
+            }
+            let (s, x) = cands[cur.below(cands.len())];
+            t.b[s as usize] = Some((p.side.inv(), x));
+        }
         0 | 1 if !men.is_empty() => {
             let s = men[cur.below(men.len())];
             let (c, old) = p.b[s as usize].unwrap();
